@@ -29,6 +29,68 @@ CLAIMED = {
         "technique": "Lean 4 proof (multimap spec laws) + differential correspondence against the real MultimapTable API",
         "design_ref": "DESIGN.md §6 C09",
     },
+    "C06": {
+        "text": "Proven monitor. Lean theorems for all states and traces: ownOk is exactly 'every allocated page has exactly one owner (latest "
+                "data tree, latest system tree, or one pending-free record) and every other page is free'; under ownOk+pinOk every page of every "
+                "pin (live reader, savepoint, last durable root) and of the durable system tree is allocated; over any accepted trace a pinned "
+                "page stays allocated and is only ever owned by the data tree or a pending-free record of a later transaction (never released, "
+                "never handed out again); a page that is released was not reachable from any surviving pin nor from an unchanged durable root. "
+                "Every state and transition of the real database observed after every step of generated histories (all durabilities, commit "
+                "strategies, aborts, savepoints, readers, reopen, crash-reopen, compaction, check_integrity) is fed to the monitor; the harness "
+                "also checks exact accounting, pinned bytes unchanged, return to level at quiescence, and the region tracker.",
+        "note": NOTE + "; the theorems are about the ownership monitor (proven-monitor correspondence): they turn `accept trace` into the property for every accepted trace; that every trace the real system can produce is accepted is checked only on the generated histories; the monitor works on page ownership, byte-level immutability of pinned pages and table contents are judged by the harness oracles (fingerprints, re-reads, recorded commit points); single-threaded histories",
+        "technique": "Lean 4 proof of a trace monitor (page ownership) + observation of the real system through read-only hooks",
+        "design_ref": "DESIGN.md §6 C06",
+    },
+    "C02": {
+        "text": "Proven monitor (shared with C06): over any accepted trace the pages of a live reader's snapshot stay allocated and never change "
+                "owner except into pending-free records of later transactions (c02_pinned_never_released / never_reused, c02_step_keeps_pinned). "
+                "On the implementation every live read transaction is re-read completely after every later step (commits of every durability, "
+                "aborts, restores, page reuse, resize, compaction attempts, cache sizes from 0) and compared with the contents at its begin_read; "
+                "the byte fingerprint of its tree must not change; a reader begun after a commit must show that commit.",
+        "note": NOTE + "; the theorems are about the ownership monitor (proven-monitor correspondence): they turn `accept trace` into the property for every accepted trace; that every trace the real system can produce is accepted is checked only on the generated histories; the monitor works on page ownership, byte-level immutability of pinned pages and table contents are judged by the harness oracles (fingerprints, re-reads, recorded commit points); single-threaded histories" + "; owned guards/iterators outliving the transaction handle and thread interleavings are not yet exercised (C03 pause points planned)",
+        "technique": "Lean 4 proof of a trace monitor + re-reading of live snapshots after every step",
+        "design_ref": "DESIGN.md §6 C02",
+    },
+    "C05": {
+        "text": "Lean theorems: an abandoned write transaction accepted by abortOk leaves the allocated set, every page's owner, the "
+                "pending-free records and the committed/durable ids unchanged, keeps every pin valid and is a legal step. On the "
+                "implementation, transactions are abandoned by abort(), drop, and commit() of a transaction poisoned by a panicking predicate, "
+                "after arbitrary bodies (table writes, delete table, savepoint create/delete/restore, durability changes); the next contents, "
+                "persistent-savepoint list, savepoint validity and the full page accounting must equal the state before.",
+        "note": NOTE + "; the theorems are about the ownership monitor (proven-monitor correspondence): they turn `accept trace` into the property for every accepted trace; that every trace the real system can produce is accepted is checked only on the generated histories; the monitor works on page ownership, byte-level immutability of pinned pages and table contents are judged by the harness oracles (fingerprints, re-reads, recorded commit points); single-threaded histories" + "; failures injected inside rename/delete/restore are covered by C08's fault sweep, not here",
+        "technique": "Lean 4 proof (abandoned transactions in the ownership monitor) + before/after comparison on the real database",
+        "design_ref": "DESIGN.md §6 C05",
+    },
+    "C07": {
+        "text": "Lean theorems: pages pinned by a savepoint are kept over whole accepted traces; a page can come back from a pending-free record "
+                "into the data tree only through a savepoint that still pins it (restore) or when nothing pins it. On the implementation: "
+                "restore+commit of ephemeral and persistent savepoints gives exactly the contents recorded at creation, later savepoints become "
+                "unusable, restore+abort changes nothing, persistent savepoints stay listed across clean reopen and crash (thorough tier: every "
+                "crash image of C01's enumeration), any order of create/restore/delete/drop leaves no leak at quiescence.",
+        "note": NOTE + "; the theorems are about the ownership monitor (proven-monitor correspondence): they turn `accept trace` into the property for every accepted trace; that every trace the real system can produce is accepted is checked only on the generated histories; the monitor works on page ownership, byte-level immutability of pinned pages and table contents are judged by the harness oracles (fingerprints, re-reads, recorded commit points); single-threaded histories",
+        "technique": "Lean 4 proof of a trace monitor + savepoint histories on the real database",
+        "design_ref": "DESIGN.md §6 C07",
+    },
+    "C11": {
+        "text": "Lean theorems: every state the monitor accepts after an open satisfies the exactly-one-owner accounting with all pins and the "
+                "durable trees allocated; across a crash only durable-id monotonicity is required. On the implementation: after clean reopen, "
+                "crash-reopen (full repair and quick-repair paths) and check_integrity the allocator bits equal the owner sets exactly, "
+                "check_integrity returns Ok(true) with unchanged contents, and further transactions run under the same monitor. A genuine "
+                "defect found by this check (check_integrity Ok(false) after an aborted growing transaction) was fixed (known_findings.json).",
+        "note": NOTE + "; the theorems are about the ownership monitor (proven-monitor correspondence): they turn `accept trace` into the property for every accepted trace; that every trace the real system can produce is accepted is checked only on the generated histories; the monitor works on page ownership, byte-level immutability of pinned pages and table contents are judged by the harness oracles (fingerprints, re-reads, recorded commit points); single-threaded histories" + "; 'a saved allocation snapshot is used only if it belongs to the commit being opened' is observed through the accounting after quick-repair opens, not proved",
+        "technique": "Lean 4 proof of a trace monitor + exact allocator-vs-owner comparison after every kind of open",
+        "design_ref": "DESIGN.md §6 C11",
+    },
+    "C13": {
+        "text": "Lean theorems: accounting and pin safety hold across compaction's commits, ids never go backwards. On the implementation: "
+                "compact() is refused exactly when readers or savepoints exist, leaves every table's contents unchanged, never makes the file "
+                "larger, and leaves exact accounting; thorough tier adds crash images inside compaction (C01's enumeration). A genuine defect "
+                "found earlier (compact() could grow the file) was fixed (known_findings.json).",
+        "note": NOTE + "; the theorems are about the ownership monitor (proven-monitor correspondence): they turn `accept trace` into the property for every accepted trace; that every trace the real system can produce is accepted is checked only on the generated histories; the monitor works on page ownership, byte-level immutability of pinned pages and table contents are judged by the harness oracles (fingerprints, re-reads, recorded commit points); single-threaded histories" + "; 'finishes in a bounded number of passes' is only observed (the call returns), relocation is not modelled in Lean",
+        "technique": "Lean 4 proof of a trace monitor + compaction histories on the real database",
+        "design_ref": "DESIGN.md §6 C13",
+    },
     "C17": {
         "text": "Lean theorems stating the catalog's decision logic outright, for all catalogs, names and requests: wrong kind -> is-multimap/"
                 "not-multimap regardless of types; same kind but different key/value type name -> type-mismatch, same names with different "
